@@ -345,6 +345,15 @@ def _in_restoring_try(f, call) -> bool:
     return False
 
 
+def r10_read_api_stores_nothing(ctx):
+    from ._shared import model_stores_in_read_api
+    ctx.rule("C13.R10", "estimate / compute_*_trajectory (and the model methods they reach) store nothing on the model object", 1)
+    sites, n_region = model_stores_in_read_api(ctx)
+    for f, st, attr in sites:
+        ctx.violation("C13.R10", f, st, f"`{U(st)[:70]}` stores `self.{attr}` from a method reached by estimate / compute_individual_trajectory: estimate is documented as leaving the model untouched; what it remembers on the object changes the answer of the next call")
+    ctx.ok("C13.R10", ("leaspy.models", "<package>"), None, f"{n_region} functions reachable from the read-only API: no attribute of the model is written", construct="read-only API")
+
+
 def rules(ctx):
     cg = callgraph(ctx)
     sw = state_writes(ctx)
@@ -355,6 +364,7 @@ def rules(ctx):
     r5_shared_defaults(ctx)
     r6_no_inplace_on_model_values(ctx)
     r7_argument_views(ctx)
+    r10_read_api_stores_nothing(ctx)
     # an algorithm works on its own deep copy of the settings' parameters (nested dictionaries included): the settings object passed in is never modified (same rule as C11.R7)
     from .c11 import r7_deepcopy
     r7_deepcopy(ctx, rid="C13.R9")
